@@ -76,6 +76,8 @@ type L2 struct {
 
 	// T, when set, records every delivered transaction and block hook outcome (shared by branches).
 	T *Transcript
+	// Speculate: see L1.Speculate.
+	Speculate bool
 }
 
 // L2Opts configures a new L2.
@@ -228,12 +230,20 @@ func (c *L2) RestorePlans(m map[uint64]opchildtypes.ExecutorChangePlan) {
 func (c *L2) Fund(addr sdk.AccAddress, coins ...sdk.Coin) { fund(c.Ctx, c.BK, addr, coins...) }
 
 func (c *L2) Deliver(msgs ...sdk.Msg) Result {
+	if c.Speculate {
+		spec, _ := c.Ctx.CacheContext()
+		_ = deliver(spec, c.Router, 0, msgs...)
+	}
 	r := deliver(c.Ctx, c.Router, 0, msgs...)
 	c.T.AddResult(msgs, r)
 	return r
 }
 
 func (c *L2) DeliverGas(gasLimit uint64, msgs ...sdk.Msg) Result {
+	if c.Speculate {
+		spec, _ := c.Ctx.CacheContext()
+		_ = deliver(spec, c.Router, gasLimit, msgs...)
+	}
 	r := deliver(c.Ctx, c.Router, gasLimit, msgs...)
 	c.T.AddResult(msgs, r)
 	return r
